@@ -2,7 +2,8 @@
 
 Generated: structured IR graphs of a function (vlib.irgraphgen.graph over the x86_32 model-call
 lifter: data registers, flags, 8/16-bit identifiers, stack / register / absolute memory cells read
-and written, branches, bounded loops, modelled calls, parallel AssignBlock hazards).
+and written, branches, bounded loops, modelled calls, parallel AssignBlock hazards); one shard in
+eight takes x86_32 functions of the compiled-C corpus instead (vlib.ccorpus, clang -O0/-O1/-O2/-Os).
 propagate_cst_expr(lifter, copy, head, lifter.arch.regs.regs_init) is applied to a copy, as
 example/expression/constant_propagation.py does.
 
@@ -88,10 +89,23 @@ def run_propag(lifter, ircfg, head, nosimp=False, nomem=False):
     return work, None
 
 
-def judge(graph, stats=None, info=None):
+LIFTED_REGS = [(n, 32) for n in ("EAX", "EBX", "ECX", "EDX", "ESI", "EDI", "EBP", "ESP")] + \
+              [(n, 1) for n in ("zf", "nf", "pf", "of", "cf", "af")]
+
+
+def judge(case, stats=None, info=None):
+    """case: {"graph": raw graph} | {"lifted": compiled function}"""
     fails = []
-    lifter, ircfg, keys = gg.build(graph)
-    head = keys[graph["head"]]
+    if "lifted" in case:
+        lifter, ircfg, head = gg.lift_function(case["lifted"])
+        states = gg.lifted_states(lifter, 8, init_suffix="_init")
+        REGS_ = LIFTED_REGS
+    else:
+        graph = case["graph"]
+        lifter, ircfg, keys = gg.build(graph)
+        head = keys[graph["head"]]
+        states = gg.make_states(8, init_suffix="_init")
+        REGS_ = REGS
     work, ex = run_propag(lifter, ircfg, head)
     if ex is not None:
         return [("exception:%s@%s" % (type(ex).__name__, where_of(ex)), "propagate_cst_expr raised %r" % ex)]
@@ -100,15 +114,14 @@ def judge(graph, stats=None, info=None):
         info["rewritten"] = nrw
     if stats is not None:
         stats["assignblks-rewritten"] += nrw
-    states = gg.make_states(8, init_suffix="_init")
-    r = gg.compare_runs(ircfg, work, head, states=states, mode="sequence", regs=REGS, same_path=True, stats=stats,
+    r = gg.compare_runs(ircfg, work, head, states=states, mode="sequence", regs=REGS_, same_path=True, stats=stats,
                         word="propagated", calls=False)
     if r:
         kind = r[0].split(":")[0]
 
         def still_fails(**kw):
             w, e = run_propag(lifter, ircfg, head, **kw)
-            return e is not None or gg.compare_runs(ircfg, w, head, states=states, mode="sequence", regs=REGS,
+            return e is not None or gg.compare_runs(ircfg, w, head, states=states, mode="sequence", regs=REGS_,
                                                     same_path=True, word="propagated", calls=False) is not None
         # root cause diagnosis by substitution
         if not still_fails(nomem=True):
@@ -126,7 +139,8 @@ class C40(Check):
     rule = ("Hypothesis: structured IR graphs of a function (vlib.irgraphgen: diamond / multi-way / counted, while, "
             "irreducible loops / loop through the head / early exits / modelled calls; memory reads and writes on "
             "stack, register-based and absolute cells; irgen's parallel-assignment hazards; <= 12 blocks; x86_32 "
-            "model-call lifter). propagate_cst_expr with init_infos = arch.regs.regs_init on a copy; original and "
+            "model-call lifter), plus, in one shard of eight, x86_32 functions compiled from generated C and lifted. "
+            "propagate_cst_expr with init_infos = arch.regs.regs_init on a copy; original and "
             "rewritten graph executed by the concrete interpreter from 8 states with X_init = X and 8 memory "
             "contents; memory writes, exit, block path and all vocabulary registers compared. Non-trivial: at least one "
             "AssignBlock was rewritten; distinct by serialised graph.")
@@ -144,14 +158,16 @@ class C40(Check):
 
     def run_shard(self, tier, seed, shard, nshards):
         res = ShardResult()
-        n = 1000 if tier == "thorough" else 60
+        n = 360 if tier == "thorough" else 60
+        if shard % 8 == 7:
+            return self.run_lifted(res, seed, n)
         strat = gg.graph(voc(), depth=3, max_blocks=12)
         cnt = [0]
 
         def one(g):
             cnt[0] += 1
             info = {}
-            fails = judge(g, res.counters, info)
+            fails = judge({"graph": g}, res.counters, info)
             for s in set(g["meta"]["shapes"]):
                 res.counters["shape:" + s] += 1
             nt = info.get("rewritten", 0) > 0
@@ -162,9 +178,34 @@ class C40(Check):
         hyp.survey(strat, n, seed, one)
         return res
 
+    def run_lifted(self, res, seed, n):
+        """functions of the compiled-C corpus (x86_32, -O0/-O1/-O2/-Os), lifted with the model-call lifter"""
+        fns, dropped = gg.compile_functions(seed % 100000, 4)
+        res.dropped.update(dropped)
+        n = max(8, n // 2)
+        fns.sort(key=lambda f: (f["tag"], f["opt"]))
+        step = max(1, len(fns) // n)
+        if step % 2 == 0:
+            step += 1
+        for fn in fns[::step][:n]:
+            info = {}
+            fails = judge({"lifted": fn}, res.counters, info)
+            res.counters["lifted:" + fn["opt"]] += 1
+            nt = info.get("rewritten", 0) > 0
+            res.case(nontrivial_key=repr(fn) if nt else None,
+                     sample={"lifted": dict(fn, code=fn["code"][:64] + "...")} if nt and fn["opt"] == "-O1" else None)
+            for b, d in fails:
+                res.fail(b, d, {"lifted": fn})
+        return res
+
     def replay(self, case):
+        if "lifted" in case:
+            fails = judge(case)
+            if not fails:
+                return None
+            return Failure(fails[0][0], fails[0][1], case)
         g = gg.deser(case["graph"])
-        fails = judge(g)
+        fails = judge({"graph": g})
         if not fails:
             return None
         want = case.get("_bucket")
@@ -175,12 +216,14 @@ class C40(Check):
         return Failure(b, d, case)
 
     def shrink(self, failure, tier):
+        if "lifted" in failure.case:
+            return failure
         g = gg.deser(failure.case["graph"])
 
         def pred(x):
-            return any(b == failure.bucket for b, _ in judge(x))
+            return any(b == failure.bucket for b, _ in judge({"graph": x}))
         small = gg.shrink_graph(g, pred, budget=300 if tier == "quick" else 1500)
-        for b, d in judge(small):
+        for b, d in judge({"graph": small}):
             if b == failure.bucket:
                 return Failure(b, d, {"graph": gg.ser(small)})
         return failure
